@@ -24,4 +24,5 @@ void h_expand_first(void) {
   if (g_ret && g_n_malloc == 0) __CPROVER_assert(0, "canary: user-workspace request served");
   if (g_ret && g_n_malloc == 0 && (in_type == LUSUP || in_type == UCOL) && g_ret != (void*)(in_work + g_skew) && ((g_skew) & 7) != 0) __CPROVER_assert(0, "canary: alignment fix-up taken");
   if (!g_ret && g_n_malloc == 0) __CPROVER_assert(0, "canary: user-workspace request does not fit");
+  if (!g_ret && g_n_malloc == 0 && in_exp[in_type].size == g_len0 && g_used_after != g_used_before) __CPROVER_assert(0, "canary: block fits but its alignment shift does not -> NULL");
 }
